@@ -1,10 +1,213 @@
+(* C13 -- File-like memory views behave as bounded files and stay in their region.
+   Property theorems only; each is closed by `exact` of a lemma of Proofs/MemIO.v or
+   Proofs/MemIORefine.v.  The model (Model/MemIO.v) is SlicedMemoryIO/MemoryIO as the code is now,
+   i.e. after the repairs 78ea6ba (read/write with the cursor outside the view) and 7cc6906
+   (__getitem__ guarded by _if_not_closed); `*_orig` is the code as found.  The tie between model
+   and code is the correspondence run of harness/c13.py (every return value, warning count,
+   exception class, controller access, tell() after each operation, final memory).
+
+   Quantification: every theorem is over ALL histories (lists of operations of any length: seek
+   with any offset and any `from_what`, read with any count, write of any bytes, slices with any
+   bounds of any view created so far -- slices of slices to any depth --, tell, len, address,
+   flush, close, free), over every base address and length, over every memory content. *)
 From Coq Require Import ZArith List Bool.
-Require Import Rig.Model.Base Rig.Model.MemIO Rig.Spec.MemIO Rig.Proofs.MemIO.
+Require Import Rig.Model.Base Rig.Model.MemIO Rig.Spec.MemIO Rig.Proofs.MemIO Rig.Proofs.MemIORefine.
 Import ListNotations.
 Open Scope Z_scope.
 
-Theorem C13_write_escapes_refuted_stub :
-  exists c, In c (o_calls (snd (step_orig (fst (step_orig (init 100 104 (fun _ => 0)) (OView 0 (Seek 6 0))))
-                                   (OView 0 (Write [1;2;3;4;5;6;7;8])))))
-            /\ c = CWrite 106 [1;2;3;4;5;6].
-Proof. exact write_escapes_orig_witness. Qed.
+(* ---- No operation on a view ever reads or writes an address outside that view's range ------- *)
+
+(* From any state whose views lie inside the allocation (in particular a fresh MemoryIO), in every
+   history: every controller access [a, a+n) issued by a method of view i satisfies
+   start_i <= a /\ a+n <= end_i /\ n > 0 (confined_event); every successful slice of view i yields
+   a range inside view i's (nested_event); and every view's range stays inside the allocation. *)
+Theorem C13_confined :
+  forall ops st, views_inside st ->
+    Forall (fun e => views_inside (fst (fst e)) /\ confined_event e /\ nested_event e) (trace st ops)
+    /\ views_inside (run st ops).
+Proof. exact history_confined. Qed.
+
+(* Consequence for MemoryIO(s, e) over any memory: whatever the history, whichever view (of any
+   depth) an operation is called on, every read and write lies in [s, max(s, e)) and is not empty,
+   and the only other controller call is sdram_free(s). *)
+Theorem C13_confined_to_allocation :
+  forall s e m ops st o out c,
+    In (st, o, out) (trace (init s e m) ops) -> In c (o_calls out) ->
+    match c with
+    | CFree a => a = s
+    | _ => call_within s (Z.max s e) c
+    end.
+Proof. exact allocation_confined. Qed.
+
+(* ---- The views behave like one fixed-length file --------------------------------------------- *)
+
+(* Any state that represents a fixed-length file f placed at address base (views = windows of f with
+   the same cursors and flags, memory = contents of f), and any history: what every method call shows
+   (value or error class, and whether a TruncationWarning was given) equals what the file operation
+   shows, and the final state represents the final file -- so reads return the bytes last written at
+   those positions, through whichever view they were written.
+   The abstraction abs_op maps seek(n, 2) to the file's seek_end(-n): see C13_seek_end_sign_refuted. *)
+Theorem C13_refines_file :
+  forall ops base st f, represents base st f ->
+    Forall2 (output_is base) (map snd (trace st ops)) (atrace f (map abs_op ops))
+    /\ represents base (run st ops) (arun f (map abs_op ops)).
+Proof. exact refines_file. Qed.
+
+(* the hypothesis is met by every fresh MemoryIO(s, e) over every memory *)
+Theorem C13_init_represents :
+  forall s e m, represents s (init s e m) (afile_init (mem_read m s (Z.max s e - s))).
+Proof. exact init_represents. Qed.
+
+(* reads return the bytes last written (directly on the model): after write(bs) fits at the cursor,
+   seek back and read(len bs) returns bs, without warnings *)
+Theorem C13_read_after_write :
+  forall m v bs, 0 <= v_off v -> v_off v + zlen bs <= vlen v -> 0 < zlen bs ->
+    let '(v1, o1) := write v bs in
+    let m1 := apply_calls m (o_calls o1) in
+    let '(v2, o2) := read m1 (set_off v1 (v_off v)) (zlen bs) in
+    o_res o1 = Ok (VInt (zlen bs)) /\ o_warns o1 = 0
+    /\ o_res o2 = Ok (VBytes bs) /\ o_warns o2 = 0 /\ v_off v2 = v_off v + zlen bs.
+Proof. exact read_after_write. Qed.
+
+(* ---- Reads and writes are truncated at the end of the view with a truncation warning, positions
+        advance by the bytes transferred ------------------------------------------------------- *)
+
+(* read(n), n >= 0, on a live view: k bytes are returned (those at the cursor), 0 <= k <= n, the cursor
+   advances by k; with the cursor at or after 0, k = max(0, min(n, len - cursor)); before 0, k = 0;
+   fewer than n bytes => at least one warning; and with the cursor inside [0, len], a warning only if
+   fewer than n bytes. *)
+Theorem C13_truncation_warned_read :
+  forall m v n v' out, 0 <= n -> read m v n = (v', out) ->
+    exists k, o_res out = Ok (VBytes (mem_read m (address v) k)) /\ zlen (mem_read m (address v) k) = k
+      /\ 0 <= k <= n
+      /\ v_off v' = v_off v + k
+      /\ (0 <= v_off v -> k = Z.max 0 (Z.min n (vlen v - v_off v)))
+      /\ (v_off v < 0 -> k = 0)
+      /\ (k < n -> 0 < o_warns out)
+      /\ (0 <= v_off v <= vlen v -> 0 < o_warns out -> k < n).
+Proof. exact read_truncation. Qed.
+
+(* read() / read(n < 0): everything from the cursor to the end when the cursor is inside [0, len],
+   nothing otherwise *)
+Theorem C13_read_default :
+  forall m v n v' out, n < 0 -> read m v n = (v', out) ->
+    let k := if (0 <=? v_off v) && (v_off v <=? vlen v) then vlen v - v_off v else 0 in
+    o_res out = Ok (VBytes (mem_read m (address v) k)) /\ v_off v' = v_off v + k.
+Proof. exact read_default. Qed.
+
+(* write(bs): k bytes (the first k of bs) are written at the cursor in one controller call (none if
+   k = 0), k is returned and the cursor advances by k; k as for read; fewer than len(bs) bytes => at
+   least one warning; with the cursor inside [0, len] a warning only if fewer. *)
+Theorem C13_truncation_warned_write :
+  forall v bs v' out, write v bs = (v', out) ->
+    exists k, o_res out = Ok (VInt k)
+      /\ 0 <= k <= zlen bs
+      /\ v_off v' = v_off v + k
+      /\ o_calls out = (if 0 <? k then [CWrite (address v) (firstn (Z.to_nat k) bs)] else [])
+      /\ (0 <= v_off v -> k = Z.max 0 (Z.min (zlen bs) (vlen v - v_off v)))
+      /\ (v_off v < 0 -> k = 0)
+      /\ (k < zlen bs -> 0 < o_warns out)
+      /\ (0 <= v_off v <= vlen v -> 0 < o_warns out -> k < zlen bs).
+Proof. exact write_truncation. Qed.
+
+(* ---- A slice covers exactly the clipped sub-range it names ------------------------------------ *)
+
+(* view[a:b] (a, b absent, negative, beyond the end or reversed) of a view of n bytes: a new open view
+   at cursor 0 whose range is inside the view's and contains address x iff position x - start is one
+   of 0..n-1 and lies in [a', b') where a', b' are the indices the bounds name (negative: from the end;
+   absent: 0 / n).  Reversed bounds name nothing: the view is empty. *)
+Theorem C13_slice_range :
+  forall v a b, v_start v <= v_end v ->
+    let w := slice_view v a b in
+    v_start v <= v_start w /\ v_start w <= v_end w /\ v_end w <= v_end v
+    /\ v_off w = 0 /\ v_closed w = false
+    /\ (forall x, v_start w <= x < v_end w <-> in_slice (vlen v) a b (x - v_start v)).
+Proof. exact slice_range. Qed.
+
+(* ---- After the view is closed, or its allocation freed, every operation fails ----------------- *)
+
+(* Once view i is closed or the allocation freed, in every continuation every seek, read, write,
+   slice, tell, address, flush on view i raises OSError, with no controller call and no warning
+   (out = err 0).  [guarded] excludes len(), which still answers, and close(), which is a no-op on a
+   closed view and raises OSError on an open view of a freed allocation (C13_close_kills). *)
+Theorem C13_dead_after_close_or_free :
+  forall ops st i v,
+    nth_error (st_views st) i = Some v -> dead (st_freed st) v = true ->
+    Forall (fun e => let '(st1, o, out) := e in
+                     forall vo, o = OView i vo -> guarded vo = true -> out = err 0)
+           (trace st ops).
+Proof. exact dead_forever. Qed.
+
+(* close() of view i, whatever it returns, leaves view i dead and issues no controller call *)
+Theorem C13_close_kills :
+  forall st i v st' out,
+    nth_error (st_views st) i = Some v -> step st (OView i Close) = (st', out) ->
+    exists v', nth_error (st_views st') i = Some v' /\ dead (st_freed st') v' = true
+               /\ o_calls out = [] /\ (o_res out = Ok VNone \/ o_res out = Failed 0).
+Proof. exact close_kills. Qed.
+
+(* free() leaves the allocation freed -- hence every view of it, of any depth, dead -- and its only
+   controller call is sdram_free *)
+Theorem C13_free_kills :
+  forall st st' out,
+    st_views st <> [] -> step st OFree = (st', out) ->
+    st_freed st' = true /\ st_views st' = st_views st
+    /\ (forall c, In c (o_calls out) -> exists a, c = CFree a).
+Proof. exact free_kills. Qed.
+
+(* ---- Refutations: the code as found, and the SEEK_END sign ------------------------------------ *)
+
+(* Code as found (before 78ea6ba).  MemoryIO of 4 bytes at 100: seek(6); write(8 bytes) slices the
+   data with bytes[:-2] and writes 6 bytes at 106..111, past the end of the view.  (Repaired: the
+   same history issues no access, Proofs/MemIO.write_escape_repaired.) *)
+Theorem C13_write_escapes_refuted :
+  forall m,
+    (exists st o out a bs,
+       In (st, o, out) (trace_orig (init 100 104 m) hist_write_escape)
+       /\ In (CWrite a bs) (o_calls out) /\ 104 < a + zlen bs)
+    /\ ~ Forall confined_event (trace_orig (init 100 104 m) hist_write_escape).
+Proof. exact (fun m => conj (write_escapes_orig m) (write_escapes_orig_not_confined m)). Qed.
+
+(* Code as found.  MemoryIO of 4 bytes at 100: seek(-4); read(4) reads 96..99, below the view. *)
+Theorem C13_negative_seek_escapes_refuted :
+  forall m,
+    exists st o out a n,
+      In (st, o, out) (trace_orig (init 100 104 m) hist_negative_seek)
+      /\ In (CRead a n) (o_calls out) /\ a < 100 /\ 0 < n.
+Proof. exact negative_seek_escapes_orig. Qed.
+
+(* Code as found (before 7cc6906).  MemoryIO of 10 bytes at 10: close(); then f[2:6] succeeds and is
+   a live view whose read(4) reaches the controller. *)
+Theorem C13_slice_after_close_refuted :
+  forall m,
+    let st := run_with step_orig (init 10 20 m) [OView 0 Close] in
+    (exists v, nth_error (st_views st) 0 = Some v /\ v_closed v = true)
+    /\ let st' := fst (step_orig st (OView 0 (Slice (Some 2) (Some 6) None))) in
+       o_res (snd (step_orig st (OView 0 (Slice (Some 2) (Some 6) None)))) = Ok (VView 12 16)
+       /\ (exists w, nth_error (st_views st') 1 = Some w /\ dead (st_freed st') w = false)
+       /\ o_calls (snd (step_orig st' (OView 1 (Read 4)))) = [CRead 12 4].
+Proof. exact slice_after_close_orig. Qed.
+
+(* The code as it is.  seek(n, 2) is len - n, a file's is len + n: MemoryIO of 10 bytes, seek(-1, 2);
+   tell() gives 11 where the file gives 9, so under the literal reading of seek(n, 2) the views do NOT
+   refine the file (known finding `seek-end-sign`; the project's own test pins len - n). *)
+Theorem C13_seek_end_sign_refuted :
+  forall m,
+    map (fun e => o_res (snd e)) (trace (init 100 110 m) hist_seek_end) = [Ok VNone; Ok (VInt 11)]
+    /\ map fst (atrace (afile_init (mem_read m 100 10)) (map abs_op_literal hist_seek_end))
+       = [Ok VNone; Ok (VInt 9)]
+    /\ ~ Forall2 (output_is 100) (map snd (trace (init 100 110 m) hist_seek_end))
+                  (atrace (afile_init (mem_read m 100 10)) (map abs_op_literal hist_seek_end)).
+Proof. exact seek_end_literal_fails. Qed.
+
+(* ---- Non-vacuity ------------------------------------------------------------------------------ *)
+
+(* a fresh MemoryIO meets the hypothesis of C13_confined, and histories do transfer bytes: writes
+   through the root and through a slice of a slice (negative bounds), read back through the root *)
+Example C13_hypotheses_satisfiable :
+  views_inside (init 100 110 (fun _ => 0))
+  /\ map (fun e => (o_res (snd e), o_calls (snd e))) (trace (init 100 110 (fun _ => 0)) ex_history)
+     = [(Ok (VInt 3), [CWrite 100 [1; 2; 3]]); (Ok (VView 101 104), []);
+        (Ok (VBytes [2; 3; 0]), [CRead 101 3]); (Ok (VView 103 104), []);
+        (Ok (VInt 1), [CWrite 103 [9]]); (Ok VNone, []); (Ok (VBytes [1; 2; 3; 9]), [CRead 100 4])].
+Proof. exact ex_history_runs. Qed.
